@@ -29,6 +29,16 @@ subprocess.check_call(["git", "-C", "/repo", "worktree", "add", "-q", wt, "HEAD"
 try:
     res["base_commit"] = subprocess.check_output(["git", "-C", wt, "rev-parse", "--short", "HEAD"], text=True).strip()
     rc, out = sh(["git", "apply", patch], cwd=wt)
+    if rc != 0:
+        # the seed was written against an older HEAD of /repo (hook commits landed since): 3-way apply and
+        # regenerate the patch against the current HEAD
+        rc, out = sh(["git", "apply", "-3", patch], cwd=wt)
+        if rc == 0:
+            sh(["git", "reset", "-q"], cwd=wt)
+            rc2, d = sh(["git", "diff"], cwd=wt)
+            patch = os.path.join(sd, "patch.diff")
+            open(patch, "w").write(d)
+            res["patch_rebased"] = True
     res["patch_applies"] = rc == 0
     if rc != 0:
         print("patch does not apply:", out); raise SystemExit(3)
